@@ -1340,6 +1340,59 @@ XSLTEngineImpl::addResultAttribute(
                 fExcludeAttribute = true;
             }
         }
+        else
+        {
+            // An attribute replaces any attribute of the element that has the
+            // same expanded name.  AttributeListImpl replaces one that has the
+            // same qualified name, so look for one with the same local part and
+            // another prefix that is bound to the same namespace...
+            const XalanDOMString::size_type     theColonIndex =
+                indexOf(aname, XalanUnicode::charColon);
+
+            if (theColonIndex < aname.length() && attList.getLength() != 0)
+            {
+                assert(m_executionContext != 0);
+
+                const ECGetCachedString     prefixGuard(*m_executionContext);
+
+                XalanDOMString&     prefix = prefixGuard.get();
+
+                substring(aname, prefix, 0, theColonIndex);
+
+                const XalanDOMString* const     theNamespace =
+                    getResultNamespaceForPrefix(prefix);
+
+                const XalanDOMChar* const   theLocalPart =
+                    aname.c_str() + theColonIndex + 1;
+
+                for (XalanSize_t i = 0; theNamespace != 0 && i < attList.getLength(); ++i)
+                {
+                    const XalanDOMChar* const   theName = attList.getName(i);
+
+                    const XalanDOMString::size_type     theOtherColonIndex =
+                        indexOf(theName, XalanUnicode::charColon);
+
+                    if (theName[theOtherColonIndex] != 0 &&
+                        equals(theName + theOtherColonIndex + 1, theLocalPart) == true &&
+                        equals(theName, aname.c_str()) == false &&
+                        startsWith(theName, DOMServices::s_XMLNamespaceWithSeparator.c_str()) == false)
+                    {
+                        prefix.assign(theName, theOtherColonIndex);
+
+                        const XalanDOMString* const     theOtherNamespace =
+                            getResultNamespaceForPrefix(prefix);
+
+                        if (theOtherNamespace != 0 &&
+                            equals(*theOtherNamespace, *theNamespace) == true)
+                        {
+                            attList.removeAttribute(theName);
+
+                            break;
+                        }
+                    }
+                }
+            }
+        }
 
         if (fExcludeAttribute == false)
         {
